@@ -565,6 +565,10 @@ class Translator:
                    self.tr(idx.step) if idx.step else "None"),)
         else:
             ix = (self.tr(idx),)
+        ba = single_atom(base)
+        if isinstance(idx, ast.Slice) and ba is not None and ba[0] == "call" and ba[1] in ("list", "tuple") and len(ba[2]) == 1:
+            # a slice of list(x) / tuple(x) is the list / tuple of the slice of x
+            return atom_poly(("call", ba[1], (atom_poly(("sub", ba[2][0], ix)),)))
         return atom_poly(("sub", base, ix))
 
     def t_Tuple(self, n):
@@ -687,6 +691,8 @@ class Translator:
                 return inner       # list(<generator / comprehension>) is that list
             if ia is not None and ia[0] == "call" and ia[1] == ".keys" and len(ia[2]) == 1:
                 inner = ia[2][0]  # list(d.keys()) = list(d)
+            if ia is not None and ia[0] == "call" and ia[1] in ("list", "tuple") and len(ia[2]) == 1:
+                inner = ia[2][0]  # tuple(list(x)) = tuple(x)
             return atom_poly(("call", name, (inner,)))
         if name in ("max", "min") and len(args) >= 2 and not kw and not any(isinstance(a_, ast.Starred) for a_ in args):
             return mk_minmax(name, tuple(self.tr(a_) for a_ in args))
